@@ -415,6 +415,14 @@ def cause_of(e: BaseException, case_ops) -> str:
         return "interp-export"
     if "Keyword argument 'interpolator' is not in the signature" in msg:
         return "interpolator-kwarg"
+    if "Object of type slice is not JSON serializable" in msg:
+        return "variable-slice"
+    if isinstance(e, TypeError) and "len() of unsized object" in msg:
+        return "built-target-array"
+    if isinstance(e, TypeError) and "unhashable type: 'list'" in msg:
+        return "variable-item-list-key"
+    if isinstance(e, IndexError) and "list index out of range" in msg:
+        return "kwargs-only-paramobj"
     has_slm = any(o["k"] == "slm" for o in case_ops)
     if isinstance(e, IndexError) and "tuple index out of range" in msg and has_slm:
         return "slm-by-keyword"
